@@ -470,18 +470,27 @@ def r_field_sources(r, prog):
 def r_type_ids(r, prog):
     C = 'slicec_bin::slice_file_converter::SliceFileContentsConverter::'
     f = prog.fn(C + 'get_type_id_for')
+    # a helper that stores its argument in converted_contents and returns the position it was stored at counts as push + id
+    def push_and_id(g):
+        ps = [c for c in g.calls() if c.name() == 'push' and not g.blocks[c.bb].get('cleanup') and 'converted_contents' in vexpr(g, c.args[0])]
+        ls = [c for c in g.calls() if c.name() == 'len' and not g.blocks[c.bb].get('cleanup')]
+        ret = vexpr(g, {'cp': {'l': 0}}, depth=6)
+        return (len(ps) == 1 and vexpr(g, ps[0].args[1]) == 'arg2' and ls and all(g.dominates(ps[0].bb, l.bb) for l in ls)
+                and re.match(r'^to_string\(Sub\(len\(arg1\.converted_contents\),1\)\)$', ret) is not None)
+    helpers = {g.name for g in prog.fns.values() if g.path.startswith(C) and g is not f and '{closure' not in g.path and push_and_id(g)}
     pushes = [c for c in f.calls() if c.name() == 'push' and not f.blocks[c.bb].get('cleanup')]
+    hcalls = [c for c in f.calls() if c.name() in helpers and not f.blocks[c.bb].get('cleanup')]
     lens = [c for c in f.calls() if c.name() == 'len' and not f.blocks[c.bb].get('cleanup')]
     convs = [c for c in f.calls() if c.name() in ('convert_result_type', 'convert_sequence', 'convert_dictionary') and not f.blocks[c.bb].get('cleanup')]
     want = {'convert_result_type': 'ResultType', 'convert_sequence': 'SequenceType', 'convert_dictionary': 'DictionaryType'}
     n = 0
     for cv in convs:
-        ps = [p for p in pushes if f.dominates(cv.bb, p.bb)]
+        ps = [p for p in pushes + hcalls if f.dominates(cv.bb, p.bb)]
         # nearest push dominated by this conversion and not by another conversion
         ps = [p for p in ps if not any(o is not cv and f.dominates(o.bb, p.bb) and f.dominates(cv.bb, o.bb) for o in convs)]
-        ls = [l for l in lens if any(f.dominates(p.bb, l.bb) for p in ps)]
+        ls = [l for l in lens if any(f.dominates(p.bb, l.bb) for p in ps)] + [p for p in ps if p in hcalls]
         sym = vexpr(f, ps[0].args[1]) if ps else ''
-        if len(ps) == 1 and len(ls) >= 1 and re.match(r'^Symbol::%s\{0:%s\(arg1,' % (want[cv.name()], cv.name()), sym) and 'converted_contents' in vexpr(f, ps[0].args[0]):
+        if len(ps) == 1 and len(ls) >= 1 and re.match(r'^Symbol::%s\{0:%s\(arg1,' % (want[cv.name()], cv.name()), sym) and 'converted_contents' in (vexpr(f, ps[0].args[0]) if ps[0] in pushes else 'converted_contents'):
             n += 1
             r.ok('%s: nested conversion, then push, then id = position of the pushed symbol' % want[cv.name()])
         else:
@@ -491,7 +500,8 @@ def r_type_ids(r, prog):
     if early:
         r.finding('anonymous-type-id-read-early', f.span, 'get_type_id_for reads converted_contents.len() before pushing: nested anonymous types pushed in between shift the id to the wrong symbol')
     rv = vexpr(f, {'cp': {'l': 0}}, depth=6)
-    if rv.count('to_string(Sub(len(') == 3 and rv.count(',1)') >= 3:
+    n_ids = len(re.findall(r'to_string\(Sub\(len\(arg1\.converted_contents\),1\)\)', rv)) + sum(rv.count(h + '(arg1,Symbol::') for h in helpers)
+    if n_ids == 3:
         r.ok('the id is len() - 1')
     else:
         r.finding('anonymous-type-id-value', f.span, 'get_type_id_for returns %s' % rv[:200])
